@@ -4,6 +4,7 @@ package main
 
 import (
 	"bytes"
+	"encoding/binary"
 	"errors"
 	"fmt"
 	"io"
@@ -475,8 +476,75 @@ func c03Run(f []string) string {
 		return sfx[1:] + " " + c03UnmarshalString(sfx[1:])
 	case "sfxd":
 		return c03UnmarshalString(string(unhex(f[1])))
+	case "wdmg":
+		n, _ := strconv.Atoi(f[1])
+		keep, _ := strconv.Atoi(f[2])
+		return c03WriteOnDamagedDay(n, keep)
 	}
 	return "bad-op"
+}
+
+// c03WriteOnDamagedDay: n blocks written by the real DBWriter, the day's .blockmeta cut to `keep` bytes
+// (or, keep < 0, its block count set to -keep times the real one), then two more DBWriter.Write calls to
+// that day: both must be refused with an error (no crash) and must leave the damaged file as it is.
+func c03WriteOnDamagedDay(n, keep int) (res string) {
+	base, err := os.MkdirTemp(c03Tmp, "d")
+	if err != nil {
+		panic(err)
+	}
+	defer os.RemoveAll(base)
+	mk := func(i int) c03Write {
+		return c03Write{ts: c03Day + int64(300*(i+1)), tr: gpfile.TrafficMetadata{NumV4Entries: 1, NumDrops: uint64(i)}, cn: types.Counters{BytesRcvd: uint64(10 + i), PacketsRcvd: 1}}
+	}
+	for i := 0; i < n; i++ {
+		w := mk(i)
+		if err := goDB.NewDBWriter(base, "eth0", encoders.EncoderTypeNull).Write(c03FlowMap(w), capturetypes.CaptureStats{Dropped: w.tr.NumDrops}, w.ts); err != nil {
+			return "err:setup"
+		}
+	}
+	var metaPath string
+	_ = filepath.Walk(base, func(p string, fi os.FileInfo, err error) error {
+		if err == nil && filepath.Base(p) == ".blockmeta" {
+			metaPath = p
+		}
+		return nil
+	})
+	data, err := os.ReadFile(metaPath)
+	if err != nil {
+		return "err:setup"
+	}
+	if keep >= 0 {
+		if keep >= len(data) {
+			keep = len(data) - 1
+		}
+		data = data[:keep]
+	} else {
+		binary.BigEndian.PutUint64(data[8:], uint64(-keep)*uint64(n))
+	}
+	if err := os.WriteFile(metaPath, data, 0o644); err != nil {
+		return "err:setup"
+	}
+	var outs []string
+	for i := n; i < n+2; i++ {
+		w := mk(i)
+		func() {
+			defer func() {
+				if r := recover(); r != nil {
+					outs = append(outs, "panic")
+				}
+			}()
+			if err := goDB.NewDBWriter(base, "eth0", encoders.EncoderTypeNull).Write(c03FlowMap(w), capturetypes.CaptureStats{}, w.ts); err != nil {
+				outs = append(outs, "err")
+			} else {
+				outs = append(outs, "ok")
+			}
+		}()
+	}
+	state := "unchanged"
+	if now, err := os.ReadFile(metaPath); err != nil || !bytes.Equal(now, data) {
+		state = "changed"
+	}
+	return listField(outs) + " " + state
 }
 
 func c03UnmarshalString(s string) string {
@@ -888,6 +956,14 @@ func c03Gen(r *Rand, tier string) []Case {
 		b, class := c03GenSuffix(r)
 		cs = append(cs, Case{Line: "C03 sfxd " + hexBytes(b), Class: class, NonTrivial: len(b) > 0})
 	}
+	for i := 0; i < nhist/4; i++ {
+		n := 1 + r.Intn(4)
+		keep := r.Intn(144 + 88*n) // any truncation of the 144+88n bytes
+		if r.Chance(1, 4) {
+			keep = -(2 + r.Intn(1000)) // implausible block count
+		}
+		cs = append(cs, Case{Line: fmt.Sprintf("C03 wdmg %d %d", n, keep), Class: "wdmg", NonTrivial: true})
+	}
 	for i := 0; i < nhist; i++ {
 		line, class, attempts := c03GenHist(r, tier)
 		cs = append(cs, Case{Line: line, Class: class, NonTrivial: attempts >= 2})
@@ -901,6 +977,7 @@ func init() {
 		Rule: "seeded. rt: metadata values with 0..300 blocks (timestamps anywhere in int64; steps +300, +1, random, 2^32-1, and - in the invalid half - backwards, duplicate, >= 2^32; per-block counts small, 2^32-1, >= 2^32, 2^64-1; random totals, offsets, lengths, encoder bytes) through the real Marshal, then the real Unmarshal on the produced bytes; the bytes and the decoded value are compared with the model. " +
 			"unm: the real Unmarshal on random bytes, boundary lengths, and marshalled metadata that was truncated, extended, bit-flipped, overwritten, or given another block count (n+1, 2n, 2^32, 2^56, 2^64-1, ...). " +
 			"hist: 1..5 writer sessions (GPDir Open/WriteBlocks*/Close with or without Close after a rejected block, or goDB.DBWriter.Write with a small flow map) on one day directory in a temporary directory, null encoder, 0..5 blocks each (1 in 25 histories: 150..300 blocks), steps as above, then NewDirReader.Open; per-write results, directory suffix, .blockmeta bytes and reopened metadata compared with the model. " +
+			"wdmg: 1-4 blocks written by the real DBWriter, the day's .blockmeta truncated to any shorter length (or its block count multiplied), then two more DBWriter.Write calls to that day: both must be refused without a crash and leave the damaged file untouched. " +
 			"sfx: MarshalString of seven uint64 totals (0, 2^32-1, 2^32, 2^63, 2^64-1, random) and UnmarshalString of the result; sfxd: UnmarshalString on seven alphanumeric fields of 0..12 digits (longer than 11 wraps), other field counts, stray punctuation, arbitrary bytes <= 'z' (bytes above 'z' are refused before decoding since the C06 fix; the corpus holds one such suffix). " +
 			"Non-trivial: rt with >= 2 blocks; unm with >= 144 bytes; hist with >= 2 attempted writes; every sfx, non-empty sfxd. Distinct = distinct case lines.",
 		Gen: c03Gen,
